@@ -132,6 +132,28 @@ CHECKS = {
               'dna() on one and two routes record the hp each strategy sees in before().'),
         note='Part 2 compares with the real decoder output (checked in Part 1)',
         ref='DESIGN.md section 3 C19'),
+    'C13': dict(
+        technique='differential monitor on the real indicator functions (prefix vs full series) under numba bounds checking, plus repeatability probe',
+        text=('For all ~168 public indicators with a sequential mode, default and non-default parameters, structured series and '
+              'several prefix lengths, every field of f(X[:k]) is compared with the prefix of f(X); workers run with '
+              'NUMBA_BOUNDSCHECK=1 so that out-of-range kernel indexing raises (thorough: also plain JIT and NUMBA_DISABLE_JIT).'),
+        note='known findings: rma/dx (index -1 wrap-around) and er (global normaliser) cannot be repaired without breaking pinned tests',
+        ref='DESIGN.md section 3 C13'),
+    'C14': dict(
+        technique='differential monitor on the real indicator functions (sequential vs non-sequential, trailing warm-up window)',
+        text=('Per indicator / parameter set / input length in {60, 239, 240, 241, 400, 1000}: sequential length per field, last '
+              'sequential value vs non-sequential value, non-sequential value on long inputs vs sequential value on the trailing '
+              '240 candles; documented exemption for the extrema detector.'),
+        note='known finding: squeeze_momentum third field has n-1 entries (pinned by its unit test)',
+        ref='DESIGN.md section 3 C14'),
+    'C15': dict(
+        technique='reference-model monitor: independent textbook implementations vs the real indicators; dispatcher differential; invariants',
+        text=('Window functions compared at every full-window index, recursive smoothers in their recurrence step and in value after '
+              'seed decay (3000-candle series), ma(matype=k) vs the k-th moving average for all 37 valid matypes, range / ordering / '
+              'non-negativity invariants and price homogeneity, on random and adversarial series (constant, monotone, alternating, '
+              'huge, tiny), periods 2..60, every source type.'),
+        note='trusts the ~150 lines of plain-loop references in vf/checks/c15.py; conventions listed in the evidence assumptions',
+        ref='DESIGN.md section 3 C15'),
 }
 
 NOT_YET = 'check under construction in this round (see DESIGN.md section 3); not claimed until it runs clean on the unchanged tree'
